@@ -198,8 +198,8 @@ def fuzz_case(body, H=9):
 def plan(tier, seed):
     pairs = [(c, p) for c in HOLDS for p in HOLDS]
     nsh = 16
-    return [dict(pairs=pairs[i::nsh], seed=seed * 100 + i, n_random=2 if tier == 'quick' else 60,
-                 fuzz=250 if tier == 'quick' else 6000) for i in range(nsh)]
+    return [dict(pairs=pairs[i::nsh], seed=seed * 100 + i, n_random=6 if tier == 'quick' else 60,
+                 fuzz=800 if tier == 'quick' else 6000) for i in range(nsh)]
 
 
 def run_shard(sh):
@@ -252,6 +252,8 @@ def run_shard(sh):
     res['counters']['fuzzed_updates_ended_session'] = 0
     for i in range(sh.get('fuzz', 0)):
         body = mutate.random_mutation(rng.choice(upd), rng)[:4077]
+        if len(body) < 4:
+            continue          # shorter than an UPDATE can be (23 octets with the header): not an UPDATE that arrived
         V, out = fuzz_case(body)
         res['evaluations'] += 1
         res['distinct'].append('fuzz|%d' % hash(body))
